@@ -219,22 +219,59 @@ Definition enc_read (v : option sexp) : sexp :=
 Definition root_reached (sh : shape) (s : state) : reached :=
   mkReached sh (Some (st_val s)) [] [] (st_keys s).
 
-(** one run of reader effect [e] with accessor chain [chain]: it reads (tracked) the field
-    the chain addresses; if the chain is cut short it reads nothing from the store.
+(** a reader: (iterate?, accessor chain) *)
+Definition reader := (bool * list step)%type.
+
+(** what an iterating reader does on a collection field it has reached:
+    Vec: `for item in field.iter_unkeyed() { item.try_read() }` — iter_unkeyed tracks the
+         field and takes its length, every AtIndex item is tracked and read;
+    keyed Vec: `for item in field { item.try_read() }` — into_iter calls update_keys() and
+         tracks the field, every AtKeyed item is tracked (segment of its key) and read
+         (index of its key).
+    Returns the triggers tracked, the values read and the KeyMap. *)
+Definition iterate (kc : list nat * list nat) (r : reached) (v : sexp) : list trig * sexp * keymap :=
+  match r_sh r with
+  | SVec _ =>
+      let items := as_list v in
+      (track_field (r_segs r)
+         ++ concat (map (fun i => track_field (r_segs r ++ [i])) (seq 0 (length items))),
+       Lst items, r_keys r)
+  | SKeyed _ =>
+      let km := km_update (fst kc) (snd kc) (r_segs r) (keys_of v) (r_keys r) in
+      let f := match km_find (r_segs r) km with Some f => f | None => fk_new [] end in
+      let per := map (fun k => match fk_get k f with
+                               | Some (seg, idx) => (track_field (r_segs r ++ [seg]),
+                                                     enc_read (nth_error (as_list v) idx))
+                               | None => (track_field (r_segs r), enc_read None)
+                               end) (keys_of v) in
+      (track_field (r_segs r) ++ concat (map fst per), Lst (map snd per), km)
+  | _ => (track_field (r_segs r), v, r_keys r)
+  end.
+
+(** one run of reader effect [e]: it reads (tracked) the field its chain addresses; if the
+    chain is cut short it reads nothing from the store.
     (Every run also tracks the reader's private `poke` trigger of the harness, which has no
     other subscriber: notifying it is [wake], see [HPoke].) *)
-Definition run_effect (sh : shape) (s : state) (e : nat) (chain : list step) : state :=
+Definition run_effect (sh : shape) (kc : list nat * list nat) (s : state) (e : nat) (rd : reader) : state :=
+  let chain := snd rd in
   let subs1 := fold_left (unsubscribe e) (srcs_of e (st_srcs s)) (st_subs s) in
   let '(r, j) := walk (root_reached sh s) chain 0 in
   let full := Nat.eqb j (length chain) in
-  let tr := if full then track_field (r_segs r) else [] in
+  let '(tr, val, km) :=
+    if full then
+      match fst rd, r_val r with
+      | true, Some v => let '(tr, val, km) := iterate kc r v in (tr, [val], km)
+      | _, _ => (track_field (r_segs r), [enc_read (r_val r)], r_keys r)
+      end
+    else ([], [], r_keys r) in
   let subs2 := fold_left (subscribe e) tr subs1 in
-  let obs := Lst [snat e; Lst (snat j :: if full then [enc_read (r_val r)] else [])] in
-  mkState (st_val s) (r_keys r) subs2 (srcs_set e tr (st_srcs s)) (st_queue s) (st_wakes s)
+  let obs := Lst [snat e; Lst (snat j :: val)] in
+  mkState (st_val s) km subs2 (srcs_set e tr (st_srcs s)) (st_queue s) (st_wakes s)
           (st_runs s ++ [obs]) (st_spos s) (st_last s).
 
 (** drain the run queue; [sched] = [] is FIFO, otherwise the next choice picks the task *)
-Fixpoint drain (fuel : nat) (sh : shape) (readers : list (list step)) (sched : list nat) (s : state) : state :=
+Fixpoint drain (fuel : nat) (sh : shape) (readers : list reader) (sched : list nat)
+         (kc : list nat * list nat) (s : state) : state :=
   match fuel with
   | 0 => s
   | S fuel =>
@@ -250,7 +287,7 @@ Fixpoint drain (fuel : nat) (sh : shape) (readers : list (list step)) (sched : l
           | Some (e, q) =>
               let s1 := mkState (st_val s) (st_keys s) (st_subs s) (st_srcs s) q (st_wakes s)
                                 (st_runs s) spos (st_last s) in
-              drain fuel sh readers sched (run_effect sh s1 e (nth e readers []))
+              drain fuel sh readers sched kc (run_effect sh kc s1 e (nth e readers (false, [])))
           | None => s
           end
       end
@@ -341,16 +378,16 @@ Inductive hstep := HSet (chain : list step) (v : sexp) | HPatch (chain : list st
                  | HPath (chain : list step) | HSegs (chain : list step) (ks : list Z)
                  | HPoke (e : nat) | HNop.
 
-Definition do_step (sh : shape) (readers : list (list step)) (sched : list nat)
+Definition do_step (sh : shape) (readers : list reader) (sched : list nat)
            (kc : list nat * list nat) (s : state) (h : hstep) : sexp * state :=
   let n := length readers in
   match h with
   | HSet chain v =>
       let '(s1, ok) := do_set sh kc s chain v in
-      report (drain n sh readers sched s1) [sbool ok]
+      report (drain n sh readers sched kc s1) [sbool ok]
   | HPatch chain v =>
       let '(s1, ok) := do_patch sh s chain v in
-      report (drain n sh readers sched s1) [sbool ok]
+      report (drain n sh readers sched kc s1) [sbool ok]
   | HPath chain =>
       let '(r, j) := walk (root_reached sh s) chain 0 in
       if Nat.eqb j (length chain)
@@ -378,12 +415,12 @@ Definition do_step (sh : shape) (readers : list (list step)) (sched : list nat)
       | _, _, _ => report s [sbool false]
       end
   | HPoke e =>
-      if Nat.ltb e n then report (drain n sh readers sched (wake s e)) [sbool true]
+      if Nat.ltb e n then report (drain n sh readers sched kc (wake s e)) [sbool true]
       else report s [sbool false]
   | HNop => report s [sbool false]
   end.
 
-Fixpoint do_steps (sh : shape) (readers : list (list step)) (sched : list nat)
+Fixpoint do_steps (sh : shape) (readers : list reader) (sched : list nat)
          (kcs : list (list nat * list nat)) (s : state) (hs : list hstep) : list sexp * state :=
   match hs with
   | [] => ([], s)
@@ -394,10 +431,10 @@ Fixpoint do_steps (sh : shape) (readers : list (list step)) (sched : list nat)
   end.
 
 (** a whole case: initial runs of all effects, then the history *)
-Definition simulate (sh : shape) (v : sexp) (readers : list (list step)) (hs : list hstep)
+Definition simulate (sh : shape) (v : sexp) (readers : list reader) (hs : list hstep)
            (sched : list nat) (kcs : list (list nat * list nat)) : list sexp :=
   let n := length readers in
-  let s0 := drain n sh readers sched (init_state v n) in
+  let s0 := drain n sh readers sched ([], []) (init_state v n) in
   let '(o0, s1) := report s0 [] in
   let '(os, s2) := do_steps sh readers sched kcs s1 hs in
   o0 :: os ++ [st_val s2].
